@@ -191,6 +191,12 @@ def cmdDo : CmdSpec → Body → Body × Saved
     (combineData (.atom k) (ov'.getD b.mode) b, save b)
   | .applyRoi k, b => (combineData (.atom k) b.mode b, save b)
 
+/-- `grp.subset_state = state` for the recorded `(grp, state)` pair of group `g`, if there is one. -/
+def restoreGroup (sv : List (Nat × Sel)) (g : Group) : Group :=
+  match sv.lookup g.id with
+  | some s => { g with state := s }
+  | none => g
+
 /-- `_restore_subsets` (the fix): remove the groups that are not in `old_groups` and, if there
 were any, roll `_sg_count` back; (delete other subsets that are not in `old_states` — there are
 none: every subset belongs to a group;) restore the state of every recorded group; restore
@@ -202,10 +208,7 @@ def restore (sv : Saved) (b : Body) : Body :=
   let created := (liveIds b).filter (fun i => !oldIds.contains i)
   let b1 := created.foldl (fun b i => removeGroup i b) b
   let b2 := if created = [] then b1 else { b1 with sgCount := sv.sgCount }
-  let b3 := { b2 with groups := b2.groups.map fun (g : Group) =>
-                match sv.groups.lookup g.id with
-                | some s => { g with state := s }
-                | none => g }
+  let b3 := { b2 with groups := b2.groups.map (restoreGroup sv.groups) }
   { b3 with edit := sv.edit }
 
 /-- `ApplySubsetState/ApplyROI.undo` **before** the fix: `for data in dc: for subset in
